@@ -19,6 +19,7 @@ import (
 const repoMod = "github.com/pentops/j5"
 
 type Engine struct {
+	immutable map[string]bool // write-once field regions (computeImmutable)
 	fset   *token.FileSet
 	prog   *ssa.Program
 	pkgs   map[string]*packages.Package
@@ -86,6 +87,7 @@ func LoadEngine(repoDir string, patterns []string, specDir string) (*Engine, err
 			}
 		}
 	}
+	e.computeImmutable()
 	// contracts: every zz_verif_contracts*.go in loaded repo packages, plus spec files
 	for path, p := range e.pkgs {
 		if !isRepoPath(path) {
@@ -223,6 +225,7 @@ func (e *Engine) contractFor(fn *ssa.Function) *Contract {
 	}
 	c := e.contractFor0(fn)
 	c = e.withTypeInv(fn, c)
+	c = e.withIfaceContracts(fn, c)
 	e.ctCache[fn] = c
 	return c
 }
@@ -271,6 +274,60 @@ func (e *Engine) withTypeInv(fn *ssa.Function, c *Contract) *Contract {
 		ec.Label = fmt.Sprintf("typeinv%d", i)
 		n.Ensures = append(n.Ensures, &ec)
 	}
+	return &n
+}
+
+// withIfaceContracts: a method that implements an in-repo interface method under contract must
+// satisfy that contract's postconditions (callers reason with the interface contract only).
+func (e *Engine) withIfaceContracts(fn *ssa.Function, c *Contract) *Contract {
+	if fn.Signature.Recv() == nil || fn.Parent() != nil {
+		return c
+	}
+	rt := fn.Signature.Recv().Type()
+	var extra []*Clause
+	for key, ic := range e.cs.Funcs {
+		if ic.Trusted || ic.Pkg == "" || len(ic.Ensures) == 0 {
+			continue
+		}
+		// key: pkg::(Iface).Method
+		i := strings.Index(key, "::(")
+		if i < 0 || !strings.HasSuffix(key, ")."+fn.Name()) {
+			continue
+		}
+		ifaceName := key[i+3 : len(key)-len(")."+fn.Name())]
+		if strings.HasPrefix(ifaceName, "*") {
+			continue
+		}
+		tp := e.typesPkg(key[:i])
+		if tp == nil {
+			continue
+		}
+		obj := tp.Scope().Lookup(ifaceName)
+		if obj == nil {
+			continue
+		}
+		it, ok := obj.Type().Underlying().(*types.Interface)
+		if !ok || !types.Implements(rt, it) {
+			continue
+		}
+		for _, en := range ic.Ensures {
+			cl := *en
+			cl.Label = "iface." + ifaceName + "." + labelOr(en.Label, len(extra))
+			extra = append(extra, &cl)
+		}
+	}
+	if len(extra) == 0 {
+		return c
+	}
+	var n Contract
+	if c != nil {
+		n = *c
+	} else {
+		pkg, rel := e.fnKey(fn)
+		n = Contract{Func: rel, Pkg: pkg, Loops: map[int]*LoopSpec{}, Opts: map[string]string{}, Synth: true, File: extra[0].File, Line: extra[0].Line}
+	}
+	n.Ensures = append(append([]*Clause{}, n.Ensures...), extra...)
+	n.IfaceRecv = true
 	return &n
 }
 
@@ -456,7 +513,10 @@ func ptrKind(v ssa.Value) (isPlace bool, region string) {
 			if p, r := ptrKind(x.X); p {
 				return true, r
 			}
-			return true, elemRegion(u.Elem().Underlying().(*types.Array).Elem())
+			if a, ok := u.Elem().Underlying().(*types.Array); ok {
+				return true, elemRegion(a.Elem())
+			}
+			return false, "" // pointer to a type-parameter array in an uninstantiated generic body
 		}
 	}
 	return false, ""
@@ -626,8 +686,32 @@ func (e *Engine) comMods(fn *ssa.Function, com *ssa.CallCommon) map[string]bool 
 			addMod(out, k, v)
 		}
 	}
+	// a callee handed one of our closures/functions may call it: its effects are the call's effects
+	addFuncArgs := func() {
+		for _, a := range com.Args {
+			if _, ok := a.Type().Underlying().(*types.Signature); !ok {
+				continue
+			}
+			switch f := stripChange(a).(type) {
+			case *ssa.MakeClosure:
+				for k2, v2 := range e.modOf(f.Fn.(*ssa.Function)) {
+					addMod(out, k2, v2)
+				}
+			case *ssa.Function:
+				for k2, v2 := range e.modOf(f) {
+					addMod(out, k2, v2)
+				}
+			case *ssa.Parameter, *ssa.FreeVar:
+				addMod(out, "$dyn", true)
+			case *ssa.Const:
+			default:
+				addMod(out, "*", true)
+			}
+		}
+	}
 	switch {
 	case com.IsInvoke():
+		addFuncArgs()
 		impls := e.implementers(com.Method)
 		for _, f := range impls {
 			expandDyn(e.modOf(f))
@@ -646,6 +730,7 @@ func (e *Engine) comMods(fn *ssa.Function, com *ssa.CallCommon) map[string]bool 
 			expandDyn(e.modOf(callee))
 		} else {
 			e.externalMods(callee, com, out)
+			addFuncArgs()
 		}
 	default:
 		v := stripChange(com.Value)
@@ -972,4 +1057,98 @@ func constantString(v constant.Value) (string, bool) {
 		return "", false
 	}
 	return constant.StringVal(v), true
+}
+
+// computeImmutable finds the write-once fields: fields of non-generic named struct types declared in
+// the repository that cannot be named outside their package (unexported field, or unexported type)
+// and that no function of the program stores to except through an allocation of the same function
+// (composite literals, constructors) and whose address never escapes. A havoc of the whole heap
+// keeps such a field on every object that existed before the havoc. Writes through reflection or
+// unsafe are not seen (assumption).
+func (e *Engine) computeImmutable() {
+	written := map[string]bool{}
+	for fn := range ssautil.AllFunctions(e.prog) {
+		if fn.Blocks == nil {
+			continue
+		}
+		for _, b := range fn.Blocks {
+			for _, in := range b.Instrs {
+				switch x := in.(type) {
+				case *ssa.Store:
+					if dbg := os.Getenv("GOVC_IMMUT_DEBUG"); dbg != "" {
+						tmp := map[string]bool{}
+						e.instrMods(fn, x, tmp, nil)
+						for k, v := range tmp {
+							if v && strings.Contains(k, dbg) {
+								fmt.Fprintf(os.Stderr, "immut: %s written by %s at %s\n", k, fn, e.fset.Position(x.Pos()))
+							}
+						}
+					}
+					e.instrMods(fn, x, written, nil)
+				case *ssa.FieldAddr:
+					refs := x.Referrers()
+					if refs == nil {
+						continue
+					}
+					esc := false
+					for _, r := range *refs {
+						switch r := r.(type) {
+						case *ssa.Store:
+							if r.Val == ssa.Value(x) {
+								esc = true
+							}
+						case *ssa.UnOp, *ssa.DebugRef:
+						case *ssa.FieldAddr:
+						case *ssa.IndexAddr:
+						default:
+							esc = true
+						}
+					}
+					if esc {
+						if dbg := os.Getenv("GOVC_IMMUT_DEBUG"); dbg != "" && strings.Contains(x.X.Type().String(), dbg) {
+							fmt.Fprintf(os.Stderr, "immut: field %d of %s escapes in %s at %s\n", x.Field, x.X.Type(), fn, e.fset.Position(x.Pos()))
+						}
+						T := derefType(x.X.Type())
+						if st, ok := isStruct(T); ok {
+							f := st.Field(x.Field)
+							switch u := f.Type().Underlying().(type) {
+							case *types.Struct:
+								// writes through the escaped pointer are stores on a field address of
+								// that struct type somewhere in the program, counted there
+							case *types.Array:
+								addMod(written, elemRegion(u.Elem()), true)
+							default:
+								addMod(written, fieldRegion(T, f, x.Field), true)
+							}
+						}
+					}
+				}
+			}
+		}
+	}
+	e.immutable = map[string]bool{}
+	for _, T := range e.namedTypes {
+		n, ok := T.(*types.Named)
+		if !ok || n.TypeParams().Len() > 0 {
+			continue
+		}
+		st, ok := n.Underlying().(*types.Struct)
+		if !ok {
+			continue
+		}
+		for i := 0; i < st.NumFields(); i++ {
+			f := st.Field(i)
+			if f.Exported() && n.Obj().Exported() {
+				continue
+			}
+			switch f.Type().Underlying().(type) {
+			case *types.Struct, *types.Array:
+				continue
+			}
+			k := fieldRegion(T, f, i)
+			if !written[k] {
+				e.immutable[k] = true
+			}
+		}
+	}
 }
